@@ -353,6 +353,13 @@ func (ip *Interp) model2(fn *ssa.Function, name string, args []AV) (AV, bool) {
 			return TupleV{&TimeV{}, ip.errVal(err.Error())}, true
 		}
 		return TupleV{&TimeV{T: t}, NilV{}}, true
+	case "time.ParseInLocation":
+		// the scripted world lives in UTC: time.Local and time.UTC are the same zone here
+		t, err := time.ParseInLocation(s(0), s(1), time.UTC)
+		if err != nil {
+			return TupleV{&TimeV{}, ip.errVal(err.Error())}, true
+		}
+		return TupleV{&TimeV{T: t}, NilV{}}, true
 	case "time.Since":
 		if ip.Clock != nil {
 			return kInt(int64(ip.Clock().Sub(ip.timeOf(args[0]).T))), true
